@@ -51,6 +51,13 @@ def corpus():
     t['rules'] = [dict(R('r1', 'IP_10.1.1.10'), srv=['test'])]; P.finish_objects(t)
     d = P.copy_vsys(t); d['sgrp'] = {'test': ['tcp 80', 'tcp 443']}; P.finish_objects(d)
     out.append(dict(tgt=[('vsys1', t)], dev=[('vsys1', d)], edits=[['corpus-service-group-member-removed']]))
+    # F-C03-3: the first rule is pointed at the target's group under its (uniquified) own name, a later rule equalizes another
+    # device group with it incrementally and cancels the transfer
+    t = P.new_vsys(); t['grp'] = {'g0': ['IP_10.1.1.11', 'NET_10.1.3.0_24']}
+    t['rules'] = [R('r1', 'g0', 'deny'), R('r2', 'g0')]; P.finish_objects(t)
+    d = P.new_vsys(); d['grp'] = {'g0': ['NET_10.1.7.0_24', 'NET_10.1.4.0_24', 'NET_10.1.2.0_24'], 'g0b': ['IP_10.1.1.11']}
+    d['rules'] = [R('r1', 'g0', 'deny'), R('r2', 'g0b')]; P.finish_objects(d)
+    out.append(dict(tgt=[('vsys1', t)], dev=[('vsys1', d)], edits=[['corpus-group-transfer-cancelled']]))
     return out
 
 
